@@ -221,6 +221,16 @@ def checkpoint (c : Codec) (cfg : Cfg) (W : World) : World × Id :=
       metas := retain cfg.maxCk (W.metas ++ [⟨i, (live W.store W.clock).length⟩]),
       fs := if cfg.file then (ckSteps c cfg W).foldl applyStep W.fs else W.fs }, i)
 
+/-- `StateStore::checkpoint` when `fs::File::create(<path>/<id>/state.json)` returns an error (the path is occupied,
+the disk is full …): the `?` leaves the function after `checkpoint_seq += 1` and `create_dir_all` — the id is
+consumed and its (empty) directory exists; no metadata is pushed and the retention step is never reached, so the
+history and every earlier checkpoint's directory are what they were. (Not an `Op` of the histories the theorems
+quantify over: it is the *live* counterpart of `crashFs … 1`, driven by the harness with a real I/O error.) -/
+def checkpointFailsAtCreate (cfg : Cfg) (W : World) : World :=
+  { W with
+      seq := W.seq + 1,
+      fs := if cfg.file then applyStep W.fs (.mkdir (newId cfg W)) else W.fs }
+
 /-- the directory as a crash after the first `n` steps of the checkpoint leaves it -/
 def crashFs (c : Codec) (cfg : Cfg) (W : World) (n : Nat) : List (Id × Option (List Nat)) :=
   ((ckSteps c cfg W).take n).foldl applyStep W.fs
